@@ -610,66 +610,41 @@ def scan_suite_overrides():
 
 
 def second_opinion(uname, unit_path, meta, keys, P):
-    cfg = load_unit_cfg(uname)
-    cfg['crate_name'] = 'unit'
-    cfg['second_opinion'] = True
+    """Levels 1..3 add more of the T3 laws as quantified facts (1: commutativity + cancellation, 2: + associativity, 3: + distributivity);
+    the richer the set the likelier the solver drowns, so the cheap levels are tried first and the first success counts."""
     out = {}
-    try:
-        text, m2 = EX.build_unit(cfg)
-    except Exception as e:
-        return {k: dict(verified=False, note='extraction failed: %s' % e) for k in keys}
-    d = os.path.join(os.path.dirname(unit_path), 'second_opinion')
-    os.makedirs(d, exist_ok=True)
-    p2 = os.path.join(d, 'unit.rs')
-    open(p2, 'w').write(text)
-    byk = {f['key']: f for f in m2['functions']}
-    for k in keys[:6]:
-        f = byk.get(k)
-        if not f or 'fn_pattern' not in f:
-            out[k] = dict(verified=False, note='no pattern')
-            continue
-        sel = (['--verify-only-module', f['modpath']] if f.get('modpath') else ['--verify-root']) + ['--verify-function', f['fn_pattern']]
-        cmd = [VR.VERUS, 'unit.rs', '--output-json', '--rlimit', '20'] + sel
+    byk = None
+    for level in (1, 2, 3):
+        todo = [k for k in keys[:6] if not out.get(k, {}).get('verified')]
+        if not todo:
+            break
+        cfg = load_unit_cfg(uname)
+        cfg['crate_name'] = 'unit'
+        cfg['second_opinion'] = level
         try:
-            pr = subprocess.run(cmd, cwd=d, capture_output=True, text=True, timeout=240)
-            js = json.loads(pr.stdout[pr.stdout.index('{'):]) if '{' in pr.stdout else {}
-            vr = js.get('verification-results', {})
-            ok = pr.returncode == 0 and vr.get('errors', 1) == 0 and vr.get('verified', 0) >= 1
-            out[k] = dict(verified=bool(ok), cmd=' '.join(cmd), verified_items=vr.get('verified'), errors=vr.get('errors'))
+            text, m2 = EX.build_unit(cfg)
         except Exception as e:
-            out[k] = dict(verified=False, note=str(e)[:200])
-    return out
-
-
-def sensitivity_selftest(pid):
-    import glob
-    import tempfile
-    out = []
-    for d in sorted(glob.glob(os.path.join(VERIF, 'seeded', pid + '_*'))) + sorted(glob.glob(os.path.join(VERIF, 'seeded2', pid + '_*'))):
-        patch = os.path.join(d, 'patch.diff')
-        if not os.path.exists(patch):
-            continue
-        try:
-            conf = json.load(open(os.path.join(d, 'confirm.json'))).get('confirmed')
-        except Exception:
-            conf = None
-        scratch = tempfile.mkdtemp(prefix='verif-sens-', dir='/var/tmp')
-        try:
-            subprocess.run(['rsync', '-a', '--exclude', 'target', '--exclude', '.git', REPO.rstrip('/') + '/', scratch + '/'], check=True)
-            pr = subprocess.run(['patch', '-p1', '-s', '-i', patch], cwd=scratch, capture_output=True, text=True)
-            if pr.returncode != 0:
-                out.append(dict(seed=os.path.basename(d), verdict='patch does not apply to the current tree'))
+            return {k: dict(verified=False, note='extraction failed: %s' % e) for k in keys}
+        d = os.path.join(os.path.dirname(unit_path), 'second_opinion_%d' % level)
+        os.makedirs(d, exist_ok=True)
+        open(os.path.join(d, 'unit.rs'), 'w').write(text)
+        byk = {f['key']: f for f in m2['functions']}
+        for k in todo:
+            f = byk.get(k)
+            if not f or 'fn_pattern' not in f:
+                out[k] = dict(verified=False, note='no pattern')
                 continue
-            env = dict(os.environ, VERIF_REPO=scratch, VERIF_OUT=os.path.join(scratch, '_out'), VERIF_SENSITIVITY_CHILD='1')
-            pr = subprocess.run([os.path.join(VERIF, 'check'), pid, '--tier', 'quick'], capture_output=True, text=True, env=env, timeout=3600)
-            lines = [l for l in pr.stdout.split('\n') if re.match(r'(OK|VIOLATION|UNDECIDED)', l)]
-            out.append(dict(seed=os.path.basename(d), confirmed=conf, verdict=(lines[0].split()[0] if lines else 'ERROR'), line=(lines[0][:300] if lines else pr.stdout[-200:])))
-        except Exception as e:
-            out.append(dict(seed=os.path.basename(d), verdict='error: %s' % e))
-        finally:
-            shutil.rmtree(scratch, ignore_errors=True)
-    return dict(seeds=out, caught=sum(1 for o in out if o.get('verdict') == 'VIOLATION'), total=len(out),
-                note='independent seeded changes (see seeded/*/meta.json); VIOLATION = caught, UNDECIDED = not decided (exit 2), OK = missed')
+            sel = (['--verify-only-module', f['modpath']] if f.get('modpath') else ['--verify-root']) + ['--verify-function', f['fn_pattern']]
+            cmd = [VR.VERUS, 'unit.rs', '--output-json', '--rlimit', '20'] + sel
+            try:
+                pr = subprocess.run(cmd, cwd=d, capture_output=True, text=True, timeout=180)
+                js = json.loads(pr.stdout[pr.stdout.index('{'):]) if '{' in pr.stdout else {}
+                vr = js.get('verification-results', {})
+                ok = pr.returncode == 0 and vr.get('errors', 1) == 0 and vr.get('verified', 0) >= 1
+                out[k] = dict(verified=bool(ok), level=level, cmd=' '.join(cmd), verified_items=vr.get('verified'), errors=vr.get('errors'))
+            except Exception as e:
+                out[k] = dict(verified=False, level=level, note=str(e)[:200])
+    return out
 
 
 def concrete_fallback(pid, seed, ev, undecided):
